@@ -67,6 +67,41 @@ InteriorBreaks == LET r == Repr(seq) IN
                   IF r.lines = <<>> THEN 0
                   ELSE LET RECURSIVE sum(_) sum(i) == IF i = 0 THEN 0 ELSE r.lines[i].breaks + sum(i - 1) IN sum(Len(r.lines))
 InvProseLines   == done => \A w \in 0..MaxW : Len(Out(w)) \in {InteriorBreaks + 1, InteriorBreaks + 2, InteriorBreaks + 3}
+(* Model-level convergence: the model's output, tokenised back into child events, laid out again at the same width *)
+TxtSet == {TxtOf(k) : k \in 1..3}
+CodeSet == {"#" \o CodeOf(k) : k \in 1..2}
+CmtSetB == {BcTxt(k) : k \in 1..2}
+CmtSetL == {LcTxt(k) : k \in 1..2}
+TokSet == TxtSet \cup CodeSet \cup CmtSetB \cup CmtSetL \cup {"#f", "[", "]"}
+RECURSIVE LexLine(_, _, _)
+LexLine(s, i, acc) ==
+  IF i > Len(s) THEN acc
+  ELSE IF SubSeq(s, i, i) = " "
+       THEN LexLine(s, i + 1, IF acc # <<>> /\ acc[Len(acc)] # " " THEN Append(acc, " ") ELSE acc)
+       ELSE LET cand == {t \in TokSet : StartsAt(s, t, i)}
+                m == CHOOSE t \in cand : \A u \in cand : Len(u) <= Len(t)
+            IN LexLine(s, i + Len(m), Append(acc, m))
+TokEvent(t) == IF t = " " THEN [e |-> "sp"]
+               ELSE IF t \in TxtSet THEN [e |-> "txt", txt |-> t]
+               ELSE IF t \in CodeSet THEN [e |-> "code", txt |-> SubSeq(t, 2, Len(t))]
+               ELSE IF t \in CmtSetB THEN [e |-> "bc", txt |-> t]
+               ELSE IF t \in CmtSetL THEN [e |-> "lc", txt |-> t]
+               ELSE [e |-> "delim", txt |-> t]
+RECURSIVE LexLines(_, _, _, _)
+LexLines(ls, k, acc, pend) ==
+  IF k > Len(ls) THEN acc
+  ELSE LET toks == LexLine(ls[k], 1, <<>>)
+           evs == [j \in 1..Len(toks) |-> TokEvent(toks[j])]
+           ws == IF pend >= 2 THEN [e |-> "par", n |-> pend] ELSE [e |-> "nl", n |-> 1]
+       IN IF toks = <<>> THEN LexLines(ls, k + 1, acc, pend + 1)
+          ELSE LexLines(ls, k + 1, (IF acc # <<>> /\ pend > 0 THEN Append(acc, ws) ELSE acc) \o evs, 1)
+Relex(ls) == LET all == LexLines(ls, 1, <<>>, 0)
+                 open == CHOOSE i \in 1..Len(all) : all[i].e = "delim" /\ all[i].txt = "["
+                 close == CHOOSE i \in 1..Len(all) : all[i].e = "delim" /\ all[i].txt = "]"
+             IN SubSeq(all, open + 1, close - 1)
+OutOf(sq, w) == Format(Cat(Cat(Cat(T("#"), T("f")), ContentBlock(sq, Unit, FALSE)), HL), w)
+InvConvergence == done => \A w \in 0..MaxW : OutOf(Relex(Out(w)), w) = Out(w)
+
 Gen == (done /\ GenOn) => PrintT(<<"GEN", ToJson([inst |-> "markup", unit |-> Unit, seq |-> seq,
                                                  pred |-> [w \in 0..MaxW |-> Out(w)]])>>)
 =============================================================================
